@@ -194,7 +194,7 @@ def corpus(tier, seed):
   from corpus import sched_designs, tv_designs
   from checks_designs import FF_NAMES
   shapes = [n for n in sched_designs.names() if n.startswith('shape:')]
-  hand = [n for n in sched_designs.names() if n.startswith('hand:')]
+  hand = [n for n in sched_designs.names() if n.startswith('hand:') and n not in sched_designs.INVERTING]
   ff = ['ff:' + n if not n.startswith('stdlib:') else n for n in FF_NAMES]
   std = ['stdlib:PipeQueueRTL2', 'stdlib:NormalQueueRTL1', 'stdlib:StreamBypassQueue2', 'stdlib:RoundRobinArbiter4', 'ex:ChecksumRTL',
          'x:Grid2D', 'x:NestedStruct', 'x:StructArr2DBehav', 'x:DescLoop']
